@@ -1,3 +1,3 @@
-import Litestream.Driver.Util
-/-! Line-protocol driver for C18 (VFS read replica). Handlers are added in Driver/Vfs.lean. -/
-def main : IO Unit := Litestream.Driver.runDriver []
+import Litestream.Driver.Vfs
+/-! Line-protocol driver for C18 (VFS read replica). -/
+def main : IO Unit := Litestream.Driver.runDriver Litestream.Driver.vfsHandlers
